@@ -2124,14 +2124,17 @@ TARGETS += [
     # in `label`), every function returns the new state (and its value); `while` loops take `fuel`
     dict(key='uf_find', file='mahotas/_labeled.cpp', func='find', pick='generic', tparams=['It'], lean='uf_find', raw_params=True,
          c_param_names=['data', 'i'], params=[('data', 'arr'), ('i', 'int')], ret_kind='int', arr_state='data', arr_default='-1',
-         while_fuel=True, driver_call='-',
+         while_fuel=True,
+         driver_call='(let v := uf_find (x 0).toNat (a.ints "l0").toArray (x 1); s!"{v.2};{showInts v.1.toList}")',
          doc='`find(data, i)`: the root search loop and the path compression loop; value = (the buffer afterwards, the returned root)'),
     dict(key='uf_compress', file='mahotas/_labeled.cpp', func='compress', pick='generic', tparams=['It'], lean='uf_compress', raw_params=True,
          c_param_names=['data', 'i'], params=[('data', 'arr'), ('i', 'int')], ret_kind='int', void=True, arr_state='data', arr_default='-1',
-         while_fuel=True, driver_call='-', doc='`compress(data, i)`: value = the buffer afterwards'),
+         while_fuel=True, driver_call='showInts (uf_compress (x 0).toNat (a.ints "l0").toArray (x 1)).toList',
+         doc='`compress(data, i)`: value = the buffer afterwards'),
     dict(key='uf_join', file='mahotas/_labeled.cpp', func='join', pick='generic', tparams=['It'], lean='uf_join', raw_params=True,
          c_param_names=['data', 'i', 'j'], params=[('data', 'arr'), ('i', 'int'), ('j', 'int')], ret_kind='int', void=True,
-         arr_state='data', arr_default='-1', while_fuel=True, driver_call='-',
+         arr_state='data', arr_default='-1', while_fuel=True,
+         driver_call='showInts (uf_join (x 0).toNat (a.ints "l0").toArray (x 1) (x 2)).toList',
          doc='`join(data, i, j)`: value = the buffer afterwards'),
     dict(key='fast_positions', file='mahotas/_morph.cpp', func='fast_binary_dilate_erode_2d', pick='plain', lean='fast_positions',
          params=[], raw_params=True, c_param_names=['res', 'array', 'Bc', 'is_erosion'],
